@@ -1,5 +1,6 @@
 CONSTANTS
   StopMode = "none"
+  Lys = @LYS@
   Tier = "@TIER@"
   ExhLen = @EXHLEN@
   Sample = @SAMPLE@
